@@ -972,6 +972,10 @@ class Fxp():
             else:
                 _scaled_val = val * conv_factor
             new_val = self._round(_scaled_val, method=self.config.rounding)
+            if self.n_word > 53 and np.asarray(new_val).dtype.kind == 'f' and np.all(np.isfinite(new_val)):
+                # the limits of words beyond 53 bits are not exact doubles: rounded floating point values are compared
+                # with them, saturated and wrapped as python integers
+                new_val = np.array([int(v) for v in np.asarray(new_val).flat], dtype=object).reshape(np.shape(new_val))
             new_val = self._overflow_action(new_val, val_min, val_max)
             if not isinstance(new_val, (np.ndarray, np.generic)):
                 new_val = np.array(new_val, dtype=object)   # (0-dimensional object arrays are unboxed by numpy)
